@@ -139,6 +139,13 @@ CHECKS = {
             '0 <= along <= total length, foot between the trench ends, min depth <= depth <= max depth. A linear temperature model decodes the distance the feature itself used. The two entry points are called in both orders and the distance query is repeated.',
             'Cartesian worlds only (in spherical worlds the construction depends on the depth method). Probes within 10 tolerances of any limit, with two nearly equidistant feet, or in the footless wedge of a dip jump are skipped and counted. One known finding (foot exactly on a segment joint).',
             'DESIGN.md section 3 C06'),
+    'C05': ('exploration', 'E1',
+            'bounded exhaustive enumeration (full product per model family of feature type x parameter values incl. sentinels x model range relation x operation x coordinate system) of single-feature worlds with elementary geometry, against the documented expressions in long double; differential oracle for the sentinel of slab models without a closed form',
+            'For every tuple a single-feature world is built whose model input is known exactly (square plates, straight ridge parallel to an axis or along a meridian, vertical plume, vertical slab / fault) and every probe - at the ends of the '
+            'feature and model ranges, one metre inside, in between and outside - is compared with the documented expression: uniform, linear, adiabatic, Chapman, half space, plate model, constant-age plate, Gaussian plume, uniform and smooth composition '
+            'with all four operations, uniform raw velocity; negative parameters must select the adiabatic / global value. For the mass conserving and plate model slab temperatures a local potential temperature over a different global one must equal the world with that global value.',
+            'Parameter alphabets as listed in the source of the check; plate-model probes stay 10 km away from the ridge axis (truncated series); 1e-9 relative tolerance (1e-5 for the two plate models).',
+            'DESIGN.md section 3 C05'),
 }
 NOT_YET = {}
 
